@@ -712,9 +712,20 @@ func (g *Gen) nextOp(f *sif.FileImage) *Op {
 func (g *Gen) queryOp(in imgInfo) *Op {
 	r := g.r
 	n := r.Intn(4)
+	if r.Chance(1, 10) {
+		// long selector lists: four or five selectors that hold of some object, then one more that
+		// decides (accepts it, rejects it, or is ill-formed)
+		n = 5 + r.Intn(3)
+		g.count("q:many-selectors")
+	}
 	op := &Op{Kind: "q", One: r.Chance(1, 3)}
 	for i := 0; i < n; i++ {
-		op.Sels = append(op.Sels, g.selector(in))
+		sel := g.selector(in)
+		if n >= 5 && i < n-1 && len(in.ids) > 0 {
+			// keep the front of a long list satisfiable: selectors that hold of every object or of one chosen object
+			sel = pick(r, []Sel{{Kind: "P", M: in.ids}, {Kind: "P", M: in.ids, MT: 0x4007}, {Kind: "id", N: int64(in.ids[len(in.ids)-1])}, {Kind: "P", M: in.ids[len(in.ids)-1:]}})
+		}
+		op.Sels = append(op.Sels, sel)
 	}
 	g.count(fmt.Sprintf("q:len%d", n))
 	return op
